@@ -6,6 +6,7 @@ kind="chain": {"base": <type name>, "steps": [step…]}
   class 0 is `T.using()` (a fresh direct subclass of the built-in type, so that nothing global is touched).
   step:
     {"t":"named","c":i,"name":str|null}
+    {"t":"class_stmt","c":i}                     `class X(classes[i]): pass` — inherits every list attribute, owns none
     {"t":"using","c":i,"kw":[[attr,val]…]}      attr: name|optional|default|validators|properties|field_schema|bogus
     {"t":"validated_by"|"descent_validated_by","c":i,"vs":[label…]}
     {"t":"including_validators"|"including_descent_validators","c":i,"vs":[label…],"pos":int|null}
@@ -184,6 +185,8 @@ class Real:
             self.add(cls.named(step["name"]), c)
         elif t == "using":
             self.add(cls.using(**self.kwargs(step["kw"])), c)
+        elif t == "class_stmt":
+            self.add(type("Stmt%d" % len(self.classes), (cls,), {}), c)
         elif t in ("validated_by", "descent_validated_by"):
             self.add(getattr(cls, t)(*[_validator(x) for x in step["vs"]]), c)
         elif t in ("including_validators", "including_descent_validators"):
@@ -668,6 +671,41 @@ def gen_dict_chain(rng):
     return {"kind": "chain", "base": "Dict", "steps": steps}
 
 
+def gen_inherit_chain(rng):
+    """classes written with a plain `class` statement below a class that owns list attributes: they inherit
+    validators / descent_validators without owning them; including_* / validated_by / using / named are then
+    called on them, on their siblings and on the owner, with instantiations in between"""
+    base = rng.choice(["String", "Integer", "Dict", "List", "DateYYYYMMDD", "Enum", "Boolean"])
+    kind = BASES[base]["kind"]
+    container = kind in ("dict", "seq", "compound")
+    steps = [rng.choice([{"t": "validated_by", "c": 0, "vs": _rand_vs(rng) or [1]},
+                         {"t": "using", "c": 0, "kw": [["validators", _rand_vs(rng) or [2]]]},
+                         {"t": "including_validators", "c": 0, "vs": [3, 4], "pos": None}])]
+    if container and rng.random() < 0.6:
+        steps.append({"t": "descent_validated_by", "c": 1, "vs": _rand_vs(rng) or [5]})
+    n = len(steps) + 1
+    for _ in range(rng.randint(3, 9)):
+        c = rng.randrange(n)
+        r = rng.random()
+        if r < 0.30:
+            steps.append({"t": "class_stmt", "c": c})
+        elif r < 0.60:
+            steps.append({"t": "including_validators", "c": c, "vs": _rand_vs(rng) or [6],
+                          "pos": rng.choice([None, 0, 1, -1, -2, -4])})
+        elif r < 0.70 and container:
+            steps.append({"t": "including_descent_validators", "c": c, "vs": _rand_vs(rng) or [7],
+                          "pos": rng.choice([None, 0, -2])})
+        elif r < 0.80:
+            steps.append({"t": "named", "c": c, "name": rng.choice(NAMES)})
+        elif r < 0.90:
+            steps.append({"t": "using", "c": c, "kw": [["optional", rng.random() < 0.5]]})
+        else:
+            steps.append({"t": "inst", "c": c, "kw": [], "val": False})
+            continue
+        n += 1
+    return {"kind": "chain", "base": base, "steps": steps}
+
+
 def gen_container_chain(rng):
     """a Dict / List / Array holding a DateYYYYMMDD member nobody has instantiated yet; the container is
     derived further and instantiated (plain, overriding, with a value) at various points"""
@@ -781,6 +819,8 @@ def gen_chain(rng, base=None, max_steps=12):
             # a compound derives a class on the fly for keywords naming class attributes; an unknown
             # keyword stays in kw and makes __init__ raise afterwards (the derived class is garbage)
             made = kind == "compound" and bool(step["kw"]) and not any(a == "bogus" for a, _ in step["kw"])
+        elif r < 0.27:
+            step = {"t": "class_stmt", "c": c}
         elif r < 0.36:
             step = {"t": "named", "c": c, "name": rng.choice(NAMES)}
             named[n] = step["name"]
@@ -911,7 +951,10 @@ class C06(Property):
             "valued, to) and plain/overriding instantiations at random points, starting from a fresh subclass of each of "
             "9 built-in types (DateYYYYMMDD = lazily prepared compound); 15% of the cases are DateYYYYMMDD chains with 0-4 "
             "user-supplied Integer members (using(field_schema=[…]), some optional) interleaved with plain/overriding "
-            "instantiations and using(optional=…) at every point; 15% are Dict chains with Integer members where overriding "
+            "instantiations and using(optional=…) at every point; 10% are chains in which classes written with a plain `class` "
+            "statement (class_stmt: inherit validators/descent_validators lists without owning them) sit below an owner "
+            "and including_*/named/using are called on them, their siblings and the owner (class_stmt also occurs in the "
+            "general chains); 15% are Dict chains with Integer members where overriding "
             "instantiations (field_schema=/policy=/name=/validators=/default=/optional=, with and without an initial value "
             "valid for the instance's own schema, so set() runs) come before, between and after plain ones and further "
             "derivations; at the end of every chain each class's field_schema_mapping is read and a plain instance is "
@@ -961,6 +1004,14 @@ class C06(Property):
         # KF-C06-a through a container: Dict.of(M)() prepares the member class M
         out.append({"kind": "chain", "base": "Dict", "steps": [
             {"t": "of_date", "c": 0, "opt": False}, {"t": "inst", "c": 1, "kw": [], "val": False}]})
+        # seeded mutation C06 round 3 (clone copies only OWN lists + in-place splice): `class Email(Text)` inherits
+        # Text's validators; Email.including_validators(...) must not touch Text, its sibling, or later derivations
+        out.append({"kind": "chain", "base": "String", "steps": [
+            {"t": "using", "c": 0, "kw": [["validators", [1]]]},
+            {"t": "class_stmt", "c": 1}, {"t": "class_stmt", "c": 1},
+            {"t": "including_validators", "c": 2, "vs": [7], "pos": None},
+            {"t": "including_validators", "c": 2, "vs": [8], "pos": 0},
+            {"t": "named", "c": 1, "name": "x"}]})
         # planned drill: including_validators without the list copy
         out.append({"kind": "chain", "base": "String", "steps": [
             {"t": "validated_by", "c": 0, "vs": [1, 2]},
@@ -993,6 +1044,8 @@ class C06(Property):
                 yield gen_dict_chain(rng)
             elif r < 0.55:
                 yield gen_container_chain(rng)
+            elif r < 0.65:
+                yield gen_inherit_chain(rng)
             else:
                 yield gen_chain(rng)
 
